@@ -11,7 +11,7 @@ from fractions import Fraction
 import z3
 
 from .values import (Poly, LinComb, BlockVec, SeqVal, Ref, HeapObj, Closure, UFunc, ModuleRef, BoundMethod, Opaque,
-                     ExcVal, fresh_name, is_z3, to_z3, to_real, to_bool, to_poly, float_literal)
+                     ExcVal, ConcVec, TabVal, fresh_name, is_z3, to_z3, to_real, to_bool, to_poly, float_literal)
 from . import builtins as B
 
 
@@ -396,6 +396,8 @@ class Executor(object):
             return [(st, ModuleRef(path))]
         if isinstance(v, Ref):
             o = st.obj(v)
+            if o.kind == "stages" and attr == "shape":
+                return [(st, ("state_shape", len(o.items)))]
             if o.kind == "object":
                 if attr in o.fields:
                     return [(st, o.fields[attr])]
@@ -411,6 +413,8 @@ class Executor(object):
                     if fi.is_property:
                         return self.call_function(fi, [v], {}, st, ctx, node)
                     return [(st, BoundMethod(v, attr))]
+                if "%s.%s" % (o.cls, attr) in self.call_hooks:
+                    return [(st, BoundMethod(v, attr))]
                 ci, expr = self.src.find_class_attr(o.cls, attr)
                 if expr is not None:
                     return self.eval(expr, st, Ctx(None, None, ci, tag=ctx.tag))
@@ -422,6 +426,10 @@ class Executor(object):
                 o.fields[attr] = val
                 return [(st, val)]
             return [(st, BoundMethod(v, attr))]
+        if isinstance(v, TabVal) and attr == "shape":
+            return [(st, v.shape)]
+        if isinstance(v, ConcVec) and attr == "shape":
+            return [(st, (len(v),))]
         if isinstance(v, UFunc):
             if attr in v.attrs:
                 return [(st, v.attrs[attr])]
@@ -505,6 +513,8 @@ class Executor(object):
         for s, v in self.eval(node.operand, st, ctx):
             if isinstance(v, Raised):
                 out.append((s, v))
+            elif isinstance(v, ConcVec) and isinstance(node.op, (ast.Invert, ast.USub)):
+                out.append((s, ConcVec((not x) if isinstance(node.op, ast.Invert) else B.neg(x) for x in v.items)))
             elif isinstance(node.op, ast.Not):
                 out.append((s, z3.Not(to_bool(v)) if is_z3(v) else (not self.truth(v, s))))
             elif isinstance(node.op, ast.USub):
@@ -697,6 +707,10 @@ class Executor(object):
             return list(v)
         if isinstance(v, B.PyIter):
             return list(v.items)
+        if isinstance(v, ConcVec):
+            return list(v.items)
+        if isinstance(v, TabVal):
+            return [ConcVec(r) for r in v.rows]
         raise Unsupported("iteration over %r" % (_short(v),))
 
     def e_Starred(self, node, st, ctx):
@@ -791,6 +805,8 @@ class Executor(object):
             return self.call_ufunc(f, args, kwargs, st, ctx, node)
         if isinstance(f, BoundMethod):
             return self.call_method(f, args, kwargs, st, ctx, node)
+        if isinstance(f, Ref) and st.obj(f).kind == "object":
+            return self.call_method(BoundMethod(f, "__call__"), args, kwargs, st, ctx, node)
         if isinstance(f, ModuleRef):
             path = f.path
             short = path.split(".")[-1]
@@ -866,6 +882,13 @@ class Executor(object):
             val = LinComb.app(f.name, *args)
         elif f.mode == "block":
             val = BlockVec(LinComb.app("%s.%d" % (f.name, k), *args) for k in range(f.attrs["nblocks"]))
+        elif f.mode == "separable":
+            # separable Hamiltonian system: dq/dt = f_q(p), dp/dt = f_p(t, q)
+            t_arg, y_arg = args[0], args[1]
+            if f.attrs.get("autonomous"):
+                val = BlockVec([LinComb.app(f.name + ".q", y_arg.blocks[1]), LinComb.app(f.name + ".p", y_arg.blocks[0])])
+            else:
+                val = BlockVec([LinComb.app(f.name + ".q", y_arg.blocks[1]), LinComb.app(f.name + ".p", t_arg, y_arg.blocks[0])])
         else:
             val = Opaque(f.name)
         if not ctx.spec:
